@@ -481,6 +481,7 @@ from engine import absint
 
 
 def run_absint(f, fname, **kw):
+    kw = {k: v for k, v in kw.items() if v is not None}
     it = absint.Interp(f, **kw)
     try:
         paths = it.run(fname)
@@ -742,11 +743,21 @@ def is_derived_body(body):
     return False
 
 
-def check_regions(ctx, rule, label, paths, it, rows, where, allow_opaque=False):
+def rename(text, names):
+    for k in sorted(names or {}, key=len, reverse=True):
+        text = text.replace(k, names[k])
+    return text
+
+
+def ret_is(text, names=None):
+    return lambda p: rename(absint.outcome_str(p.outcome), names) == "return " + text
+
+
+def check_regions(ctx, rule, label, paths, it, rows, where, allow_opaque=False, path_filter=None):
     """Compare an abstract-interpretation result with a spec table.
     rows: [(row name, zone constraints, predicate(path) -> bool, expected text)]."""
     for name, cons, pred, text in rows:
-        ps = absint.paths_in_region(paths, cons)
+        ps = absint.paths_in_region([p for p in paths if path_filter is None or path_filter(p)], cons)
         ok = bool(ps)
         det = []
         for p in ps:
